@@ -287,6 +287,11 @@ def agg_calls(draw, cols):
     return ['fn', fn, [draw(exprs(t, cols, draw(st.integers(0, 2))))]], t
 
 
+def jsonio_copy(e):
+    import copy
+    return copy.deepcopy(e)
+
+
 @st.composite
 def agg_exprs(draw, cols):
     """An aggregate target: an aggregate call, possibly with arithmetic / comparison / function on top."""
@@ -295,7 +300,10 @@ def agg_exprs(draw, cols):
     if k < 5:
         return a, t
     if t in ('int', 'decimal'):
-        form = draw(st.sampled_from(['plus', 'neg', 'ratio', 'cmp', 'mix', 'coalesce']))
+        form = draw(st.sampled_from(['plus', 'neg', 'ratio', 'cmp', 'mix', 'coalesce', 'twice']))
+        if form == 'twice':
+            # the same aggregate call occurring twice in one expression
+            return [draw(st.sampled_from(['add', 'mul', 'sub'])), a, jsonio_copy(a)], t
         if form == 'plus':
             return [draw(st.sampled_from(['add', 'sub', 'mul'])), a, draw(literal('int'))], t
         if form == 'neg':
